@@ -16,7 +16,7 @@ RULE = ("case = (structure: isolated atom / two spheres at controlled separation
         "within 1e-5 nm of a neighbour's surface; closed forms 4*pi*(r+p)^2 and the two-sphere cap formula within quadrature error; "
         "residue = sum of atoms; subset => kept atoms bit-identical to the unrestricted run, others -1; every frame == the single-frame "
         "result; non-trivial = >=2 frames with buried and exposed atoms, or a proper subset")
-QUICK = {"examples": 300, "shards": 12, "budget_s": 100}
+QUICK = {"examples": 300, "shards": 12, "budget_s": 160}
 THOROUGH = {"examples": 2500, "shards": 16, "budget_s": 1500}
 ASSUMPTIONS = ["atomic radii are a pinned copy of the documented table (mdtraj/geometry/sasa.py _ATOMIC_RADII) for the elements used",
                "sphere points within 1e-5 nm (+ float32 rounding of the coordinates) of a neighbour's surface are not compared; "
